@@ -1029,11 +1029,71 @@ class _ModF:
         return []
 
 
+_IN_PLACE_RESET = ('clear', 'pop', 'remove', 'insert', 'sort', 'reverse', '__delitem__', '__setitem__')
+
+
+def r6_tables_rebound(run):
+    """A lookup that is already running holds the finder AND the table
+    objects it was started with.  A recompile must therefore PUBLISH NEW
+    tables (rebind the attributes to fresh lists, then fill them) and leave
+    the old list objects alone; emptying or reordering a table in place
+    (clear(), del t[:], t[:] = ..., pop/insert/sort) pulls the entries from
+    under an in-flight finder: it returns another route's resource or fails
+    with IndexError."""
+    p = run.project
+    rm = RouterModel(p)
+    tables = [t for _i, t in rm.tables]
+    fresh_binds = {t: [] for t in tables}
+    for f in rm.cls.methods.values():
+        hit = False
+        for x in walk_self(f.node):
+            if isinstance(x, ast.Call) and isinstance(x.func, ast.Attribute) and _self_attr(x.func.value) and x.func.value.attr in tables:
+                hit = True
+                if x.func.attr in _IN_PLACE_RESET:
+                    run.fail('%s changes the published table self.%s in place (%s): a lookup in flight on another thread reads the same list object'
+                             % (f.name, x.func.value.attr, x.func.attr), f, x,
+                             runtime_witness="thread A is inside the finder for '/items/7' while thread B adds '/items' and recompiles: A answers "
+                                             "with the wrong resource or raises IndexError")
+            elif isinstance(x, ast.Delete):
+                for t in x.targets:
+                    if isinstance(t, ast.Subscript) and _self_attr(t.value) and t.value.attr in tables:
+                        hit = True
+                        run.fail('%s deletes entries of the published table self.%s in place' % (f.name, t.value.attr), f, x)
+            elif isinstance(x, (ast.Assign, ast.AugAssign, ast.AnnAssign)):
+                tg = x.targets if isinstance(x, ast.Assign) else [x.target]
+                flat = []
+                for t in tg:
+                    flat += list(t.elts) if isinstance(t, (ast.Tuple, ast.List)) else [t]
+                for t in flat:
+                    if isinstance(t, ast.Subscript) and _self_attr(t.value) and t.value.attr in tables:
+                        hit = True
+                        run.fail('%s overwrites entries of the published table self.%s in place' % (f.name, t.value.attr), f, x)
+                    elif _self_attr(t) and t.attr in tables:
+                        hit = True
+                        v = getattr(x, 'value', None)
+                        is_fresh = isinstance(x, (ast.Assign, ast.AnnAssign)) and (
+                            (isinstance(v, ast.List) and not v.elts) or (isinstance(v, ast.Call) and isinstance(v.func, ast.Name) and v.func.id == 'list' and not v.args))
+                        if isinstance(x, ast.AugAssign):
+                            run.fail('%s extends the published table self.%s in place of rebinding it' % (f.name, t.attr), f, x)
+                        elif is_fresh:
+                            fresh_binds[t.attr].append((f, x))
+                        else:
+                            raise UnknownIdiom('%s: table self.%s bound to %s' % (f.qual, t.attr, short(v)))
+        if hit:
+            run.use(f)
+    for t in tables:
+        outside_init = [(f, x) for f, x in fresh_binds[t] if f.name != '__init__']
+        run.check(bool(outside_init), 'the (re)compile routine publishes a fresh list for the table self.%s' % t,
+                  rm.stub, 'self.%s = []' % t, where=(outside_init[0][0].loc(outside_init[0][1]) if outside_init else rm.stub.loc()),
+                  runtime_witness='a recompile refills the list object that a lookup in flight is indexing')
+
+
 def check(run):
     run.assume('configuration-time mutation (add_route, add_error_handler, option assignment) does not race with traffic; user code is out of scope')
     run.assume('objects handed out by lru_cache-d functions are not mutated by user code')
     run.rule('R1', r1_compile_lock, 'lazy router compilation under the lock, re-check, publish after build, re-read tables', floor=7)
     run.rule('R2', r2_no_request_state, 'no store into self on the request path of shared objects', floor=45)
     run.rule('R3', r3_inventory, 'shared-state inventory against the reasoned allow-list', floor=24)
+    run.rule('R6', r6_tables_rebound, 'a recompile publishes fresh router tables; no published table is emptied or reordered in place', floor=3)
     run.rule('R5', r5_memo_returns_mutable, 'memoised functions do not hand out mutable containers they built', floor=5)
     run.rule('R4', r4_fresh_per_call, 'params/req/resp fresh per call and never parked on self', floor=30)
